@@ -88,6 +88,9 @@ type Interp struct {
 	noIntr     map[string]int
 	pendingGo  []pendingGo
 	initFailSeen map[string]bool
+	pathsSinceRestart int
+	pureCache  map[*ssa.Function]int8
+	specSteps  int
 }
 
 func NewInterp(prog *ssa.Program) *Interp {
@@ -442,6 +445,27 @@ type NativeFunc struct {
 	f    func(it *Interp, caller *frame, args []Value) Value
 }
 
+// hasSymbolicArg is a cheap filter: merging only pays off when something symbolic can reach the callee.
+func hasSymbolicArg(args, env []Value) bool {
+	for _, a := range args {
+		switch a := a.(type) {
+		case *Term:
+			if a.Op != OpConst {
+				return true
+			}
+		case Str:
+			for _, b := range a.b {
+				if b.Op != OpConst {
+					return true
+				}
+			}
+		case *Value, []Value, Struct, Iface, SymPtr:
+			return true // may reach symbolic memory
+		}
+	}
+	return len(env) > 0
+}
+
 const maxDepth = 2500
 
 var skipInitPkgs = map[string]bool{"runtime": true, "internal/cpu": true, "internal/bytealg": true, "runtime/internal/sys": true,
@@ -456,7 +480,13 @@ func pkgPathOf(fn *ssa.Function) string {
 
 func (it *Interp) callSSA(caller *frame, site ssa.Instruction, fn *ssa.Function, args []Value, env []Value) (result Value) {
 	if it.spec > 0 {
-		panic(specAbort{"call"})
+		return it.callPure(caller, site, fn, args, env)
+	}
+	if !it.tolerant && fn.Blocks != nil && len(fn.Blocks) > 1 && hasSymbolicArg(args, env) && it.staticPure(fn) {
+		if v, ok := it.tryPureCall(caller, site, fn, args, env); ok {
+			it.statIfConv++
+			return v
+		}
 	}
 	if it.tolerant {
 		// package initialisation: a failing call yields poison instead of aborting the initialiser
